@@ -1,6 +1,6 @@
 import OvniModel.Emu.MarkEmu
 import OvniModel.Lemmas.MarkRt
-import OvniModel.Props.C08
+import OvniModel.Props.C08Stack
 
 /-!
 # C17 — mark API end to end
